@@ -512,6 +512,7 @@ func runC11(o *Out, rng *RNG, tier string, replay string) {
 		nRecheck = 6000
 	}
 	c11WaitRecheck(o, rng, nRecheck)
+	scopeNestedIsolationProbe(o, "C11")
 
 	c11GioProbe(o)
 	nRace, nMulti := 600, 150
